@@ -190,6 +190,11 @@ def run(tier):
             raise Broken("negative control: a Crash event was accepted by Trace_Delta")
     ck.extra["rule"] = "one case = (target with missing chunks, header line, body byte string, fragment size); under ASan+UBSan with a 40 s watchdog"
     ck.assumptions = ["memory errors are observed through ASan/UBSan/signals (DESIGN.md section 9)", "fragments of at most 16 KiB"]
+    # allocation failures under the sanitizers (verif/allocfault.py): the whole documented update - ranges, their rendering,
+    # multipart rounds in fragments - with every allocation of zchunk's own code refused in turn; heap corruption is a violation
+    from .. import allocfault
+    for what, scr in allocfault.asan_update_sweep(ck, tier, wd, rnd):
+        ck.violation(what, scr)
     shutil.rmtree(wd, ignore_errors=True)
     return ck.finish()
 
